@@ -1,6 +1,6 @@
 (* Props/C17.v — C17: whitespace, entity and attribute normalisation preserves meaning.
    Statements only; each is closed by [exact] of a lemma proved in Normalise/*Proofs.v. *)
-From Verif Require Import Common.Base Normalise.Model Normalise.Spec Normalise.WsProofs Normalise.EscProofs Normalise.EntProofs.
+From Verif Require Import Common.Base Normalise.Model Normalise.Spec Normalise.WsProofs Normalise.EscProofs Normalise.EntProofs Normalise.AttrProofs.
 
 (* ReplaceMultipleWhitespace (the in-place j/k compaction with its three exit cases) neither panics nor
    runs out of fuel and returns the unique o with [Collapse false b o]: b cut into maximal runs of
@@ -47,3 +47,51 @@ Theorem cdata_escape :
     end.
 Proof. exact cdata_escape_proof. Qed.
 Print Assumptions cdata_escape.
+
+(* html.EscapeAttrVal never panics and returns exactly what the documentation promises: the value as it
+   is when it contains no whitespace, quote, backtick, less-than, equals or greater-than byte and quoting is not forced (mustQuote with an
+   original quote); otherwise the value between the cheaper quote (the original quote on a tie, double
+   by default) with exactly that quote replaced by &#34; / &#39;.  All values, quotes, flags. *)
+Theorem html_escape_quote_rule :
+  forall v oq mq, html_escape_attr_val v oq mq = Ok (html_expected v oq mq).
+Proof. exact html_escape_form. Qed.
+Print Assumptions html_escape_quote_rule.
+
+(* Placed after `<a x=` and before `>`, the escaped value is read back by the in-tag html lexer model as
+   exactly one attribute (key x) whose value is the escaped value, followed by the tag close; unquoted
+   and decoded it gives the decoding of the original value.  For every decoder table that reads &#34;
+   and &#39; as written and whose references are '&' followed by bytes other than '&' and the quotes
+   (std_refs is one: std_refs_esc_dq, std_refs_esc_sq).  All values (NUL included), quotes, flags. *)
+Theorem html_escape_roundtrip :
+  forall tbl v oq mq, esc_tbl 34 ent_dq tbl -> esc_tbl 39 ent_sq tbl ->
+    let out := html_expected v oq mq in
+    html_escape_attr_val v oq mq = Ok out /\
+    html_tag_tokens (attr_x out ++ [62]) = [TAttr (attr_x out) [120] (Some out); TClose [62]] /\
+    decode tbl (unquote out) = decode tbl v.
+Proof. exact html_escape_roundtrip_proof. Qed.
+Print Assumptions html_escape_roundtrip.
+
+(* xml.EscapeAttrVal: always quoted with the cheaper quote (double on a tie); for NUL-free values the
+   in-tag xml lexer model reads it back as one attribute whose value, unquoted and decoded, is the
+   decoding of the original value WITH literal TAB/LF/CR REPLACED BY SPACES (the lexer overwrites them
+   inside quotes), hence of the original value itself when it contains none of them.
+   Missing for the clause as written: values containing TAB/LF/CR — see xml_escape_roundtrip_ws_refuted. *)
+Theorem xml_escape_roundtrip_partial :
+  forall tbl v, esc_tbl 34 ent_dq tbl -> esc_tbl 39 ent_sq tbl -> ~ In 0 v ->
+    let out := quoted (xml_quote v) v in
+    let val := quoted (xml_quote v) (map xnorm v) in
+    xml_escape_attr_val v = Ok out /\
+    xml_tag_tokens (attr_x out ++ [62]) = [TAttr (attr_x val) [120] (Some val); TClose [62]] /\
+    len val = len out /\
+    decode tbl (unquote val) = decode tbl (map xnorm v) /\
+    (map xnorm v = v -> val = out /\ decode tbl (unquote val) = decode tbl v).
+Proof. exact xml_escape_roundtrip_proof. Qed.
+Print Assumptions xml_escape_roundtrip_partial.
+
+(* The clause as written is FALSE for xml: the value TAB is written literally between double quotes and read back as a space. *)
+Theorem xml_escape_roundtrip_ws_refuted :
+  exists v out val data, ~ In 0 v /\ xml_escape_attr_val v = Ok out /\
+    xml_tag_tokens (attr_x out ++ [62]) = [TAttr data [120] (Some val); TClose [62]] /\
+    decode std_refs (unquote val) <> decode std_refs v.
+Proof. exact xml_escape_roundtrip_ws_refuted_proof. Qed.
+Print Assumptions xml_escape_roundtrip_ws_refuted.
